@@ -15,14 +15,19 @@ Interpretation (DESIGN App. B): histories use the structural user actions and re
 user tables; raw writes of arbitrary reference ids into _grist_* tables are not generated.
 The reference columns are read from the CURRENT schema.py on every run.
 """
+import json
+
 from gx.props import _hist
 
 PROP = "C09"
-PROFILE = {"remove_table": 4, "remove_column": 7, "remove_view_stuff": 6, "summary": 5, "update_summary": 2,
+PROFILE = {# raw doc actions of an OLD undo list replayed against a document that has moved on are raw writes into
+           # the metadata (no clean-up runs), outside this property's histories (see Interpretation)
+           "stale_undo": 0,
+           "remove_table": 4, "remove_column": 7, "remove_view_stuff": 6, "summary": 5, "update_summary": 2,
            "detach_summary": 1, "display_formula": 4, "add_rule": 4, "add_ref_column": 4, "reverse_column": 2,
            "rename_column": 3, "rename_table": 2, "duplicate_table": 1.5, "add_table": 4, "add_column": 5,
            "add_formula_column": 4, "modify_type": 3, "undo_earlier": 3, "malformed": 2, "add_record": 6,
-           "update_record": 6, "remove_record": 4}
+           "update_record": 6, "remove_record": 4, "ref_into_summary": 4, "remove_summary_widget": 4}
 CFG = {"oracles": ("replica",), "n_bundles": 14, "profile": PROFILE, "hook": "gx.props.c09.install"}
 TIE_KINDS = ("meta-refs", "doc-P", "driver")
 
@@ -97,8 +102,65 @@ def twin(doc, specs):
   return res
 
 
+def setup_cascade(h):
+  """Set-up bundles (each sees the document left by the previous one) for a chain of automatic removals:
+  a summary table with one widget, a reference column pointing into it shown through a display helper
+  column, a filter on the widget; then (half of the time here, otherwise left to the generated part)
+  the widget or its page is removed: the summary table goes, the reference column is converted, and
+  only then do the helper column and the filter lose their user."""
+  from gx.gen_hist import World
+  rng, gen = h.rng, h.gen
+  w = World(h.doc)
+  ts = w.user_tables()
+  if not ts:
+    return
+  t = rng.choice(ts)
+  cands = [c for c in w.data_cols(t) if c["type"].split(":")[0] in ("Int", "Text", "Choice", "Bool", "Numeric")]
+  gb = [c["ref"] for c in rng.sample(cands, min(len(cands), rng.choice([0, 1, 1, 2])))]
+  yield [["CreateViewSection", t["ref"], 0, "record", gb, None]]
+  w = World(h.doc)
+  sums = w.user_tables(summary=True)
+  if not sums:
+    return
+  st = sums[-1]
+  secs = [x for x in w.sections if x.get("tableRef") == st["ref"] and x.get("parentId")]
+  k = rng.randint(1, 4)
+  cols = w.data_cols(t)
+  yield [["BulkAddRecord", t["tableId"], [None] * k,
+          {c["colId"]: [gen.value_for(w, c, allow_bad=False) for _ in range(k)] for c in cols}]]
+  src = rng.choice(w.user_tables())
+  name = gen.new_name()
+  yield [["AddColumn", src["tableId"], name, {"type": "Ref:%s" % st["tableId"], "isFormula": False}]]
+  w = World(h.doc)
+  col = [c for c in w.tables[src["tableId"]]["cols"] if c["colId"] == name]
+  st = w.tables.get(st["tableId"])
+  vcs = [c for c in (w.visible_cols(st) if st else []) if c["colId"] != "group"]
+  if col and vcs:
+    vc = rng.choice(vcs)
+    acts = [["SetDisplayFormula", src["tableId"], None, col[0]["ref"], "$%s.%s" % (name, vc["colId"])]]
+    if rng.random() < 0.7:
+      acts.insert(0, ["UpdateRecord", "_grist_Tables_column", col[0]["ref"], {"visibleCol": vc["ref"]}])
+    yield acts
+    if src["rows"] and st["rows"]:
+      yield [["BulkUpdateRecord", src["tableId"], list(src["rows"]), {name: [rng.choice(st["rows"]) for _ in src["rows"]]}]]
+  if secs and vcs and rng.random() < 0.6:
+    yield [["AddRecord", "_grist_Filters", None, {"viewSectionRef": secs[0]["id"], "colRef": rng.choice(vcs)["ref"],
+                                                  "filter": json.dumps({"excluded": []})}]]
+  if secs and rng.random() < 0.5:
+    sec = secs[0]
+    pages = [p for p in w.pages if p.get("viewRef") == sec["parentId"]]
+    if pages and rng.random() < 0.4:
+      yield [["RemoveRecord", "_grist_Pages", pages[0]["id"]]]
+    elif rng.random() < 0.5:
+      yield [["RemoveView", sec["parentId"]]]
+    else:
+      yield [["RemoveViewSection", sec["id"]]]
+
+
 def install(h, cfg):
   specs = ref_specs()
+  if h.rng.random() < 0.4:
+    h.setup = setup_cascade
   h.extra_oracles.append(lambda hh, rec: oracle(hh, rec, specs))
   if h.tie is not None:
     def extra(doc, res):
@@ -124,7 +186,8 @@ def oracle(h, rec, specs):
       what = detail.split("[")[0] + "." + detail.split("].")[1].split(" ")[0] if k == "refs" and "]." in detail else k
       h._find(PROP, "%s clause violated (%s) after %s" % (k, what, acts), detail, rec)
   kinds = set(rec["kinds"])
-  if kinds & {"remove_table", "remove_column", "remove_view_stuff", "detach_summary", "update_summary", "undo_earlier"}:
+  if kinds & {"remove_table", "remove_column", "remove_view_stuff", "detach_summary", "update_summary", "undo_earlier",
+               "remove_summary_widget"}:
     rec["nontrivial"] = True
 
 
